@@ -258,9 +258,9 @@ def att_garbage_then_read(x0: int, x1: int, x2: int, x3: int, x4: int, i: int, n
         try:
             with cpu_deadline(_BUDGET):
                 server.on_gatt_pdu(b, att.ATT_PDU.from_bytes(_B(code, x0, x1, x2, x3, x4)[:1 + n]))
+                loop.run_ready()
         except Stalled:
             return False
-            loop.run_ready()
         except RecursionError:
             return False
         except Exception:
